@@ -3,6 +3,7 @@ Composition model of `PublisherSharedState::send_sample` (refresh the connection
 subscriber gets the history —, add the sample to the history, deliver) interleaved with a subscriber
 that registers at any moment.  Property: the subscriber receives every sample at most once, in order.
 -/
+import Iox2.Model.Compose
 namespace Iox2.Compose.PS
 
 inductive POp where
@@ -10,6 +11,13 @@ inductive POp where
 deriving DecidableEq, Repr
 
 def nominal : List POp := [.refresh, .addHistory, .deliver]
+
+def expand : List Src → List POp
+  | [] => []
+  | .refresh :: r => .refresh :: expand r
+  | .addHistory :: r => .addHistory :: expand r
+  | .deliver :: r => .deliver :: expand r
+  | _ :: r => expand r
 
 structure St where
   registered : Bool := false
